@@ -276,7 +276,11 @@ func genConstraint(t *rapid.T, depth int) constraint.Expr {
 	}
 	switch uniform(t, "op", 3) {
 	case 0:
-		return &constraint.NotExpr{X: genConstraint(t, depth-1)}
+		x := genConstraint(t, depth-1)
+		if n, ok := x.(*constraint.NotExpr); ok {
+			return n.X // "!!x" is not a valid constraint
+		}
+		return &constraint.NotExpr{X: x}
 	case 1:
 		return &constraint.AndExpr{X: genConstraint(t, depth-1), Y: genConstraint(t, depth-1)}
 	}
@@ -413,8 +417,11 @@ func genGenCase(t *rapid.T, prop string) *genCase {
 						}
 						ok1, _ := evalLines(gl, m)
 						ok2, _ := evalLines(pl, m)
-						if !ok1 || !ok2 {
-							continue
+						m["cff"] = false
+						ex1, _ := evalLines(gl, m)
+						ex2, _ := evalLines(pl, m)
+						if !ok1 || !ok2 || (len(gl) > 0 && ex1) || (len(gl) == 0 && ex2) {
+							continue // not selected with cff, or not excluded without it, under the package's tags
 						}
 					}
 					f.Header, gc.hdrLabel[f.Name] = h, lbl
@@ -924,6 +931,12 @@ func TestGen(t *testing.T) {
 				mine = append(mine, fd)
 			} else {
 				others = append(others, fd.Prop)
+				if *flagOut != "" && fd.Prop != "INFO" {
+					if f, err := os.OpenFile(filepath.Join(*flagOut, fmt.Sprintf("otherfindings-%s-%d.txt", prop, *flagShard)), os.O_APPEND|os.O_CREATE|os.O_WRONLY, 0o644); err == nil {
+						f.WriteString("[" + fd.Prop + "] " + clip(fd.Msg) + "\n")
+						f.Close()
+					}
+				}
 			}
 		}
 		sort.Strings(others)
